@@ -1,7 +1,7 @@
 //! Deterministic, honestly signed operation chains (fixed key seeds) and common type aliases.
 use std::sync::OnceLock;
 
-use p2panda_core::{Body, Hash, Header, Operation, SigningKey, Topic, VerifyingKey};
+use p2panda_core::{Body, Header, Operation, SigningKey, Topic, VerifyingKey};
 use p2panda_sync::protocols::{LogSyncMessage, TopicLogSyncEvent, TopicLogSyncMessage};
 
 pub type L = u64;
@@ -28,9 +28,6 @@ pub struct Signed {
 }
 
 impl Signed {
-    pub fn hash(&self) -> Hash {
-        self.op.hash
-    }
     pub fn body_bytes(&self) -> Option<Vec<u8>> {
         self.op.body.as_ref().map(|b| b.to_bytes())
     }
